@@ -5,7 +5,7 @@ TECH = "deterministic simulation with fault injection: "
 NOTE = ("trusted: blake3, the ECVRF primitive, the reference model (sim/src/model.rs), SimDb as a faithful "
         "record-atomic store; sampling within stated bounds, not proof")
 CLAIMED = {
- "C01": ("exploration", "seeded publish histories on the real Directory (parallel insertion/preload tasks interleaved by the simulator) compared after every call with a from-scratch canonical-trie model whose hash formulas are re-implemented on blake3", "seeded search over publish histories and internal task schedules; reference-model oracle", "7/C01"),
+ "C01": ("exploration", "seeded publish histories on the real Directory (parallel insertion/preload tasks interleaved by the simulator; batches of 0..12 entries, one case in 250 with batches of 127..3100 entries) compared after every call with a from-scratch canonical-trie model whose hash formulas are re-implemented on blake3", "seeded search over publish histories and internal task schedules; reference-model oracle", "7/C01"),
  "C02": ("exploration", "every label looked up (single and batched) at checked epochs through the protobuf wire and verified with lookup_verify against the returned epoch hash; compared with the model", "seeded search over histories and schedules; reference-model oracle through the simulated wire", "7/C02"),
  "C03": ("exploration", "key history for every label and parameter shape through the wire, verified and compared with the model's newest-first slice", "seeded search over histories and schedules; reference-model oracle through the simulated wire", "7/C03"),
  "C04": ("exploration", "audit(s,e) for all / sampled epoch pairs verified by audit_verify against the MODEL's root hashes; invalid ranges must be refused", "seeded search over histories and schedules; reference-model oracle", "7/C04"),
